@@ -3,7 +3,7 @@ C12 driver: parses the case lines that harness/c12/c12.c executes against the re
 (`model` mode), or parses an implementation trace into events and runs the specification oracle (`judge` mode).
 
 Case lines:   script u<k> =<text> <op>;<op>...   |  conn  |  send u<k> <data>  |  close u<k>  |  cycle  |  run
-ops:          kick,u<k> | drop,u<k> | ecmd,u<k>,<text> | gc | it
+ops:          kick,u<k> | drop,u<k> | ecmd,u<k>,<text> | gc | it | itn
 Texts in traces are `=` followed by [a-z0-9] literally and %xx for every other byte.
 -/
 import NV.Common.Proto
@@ -107,6 +107,7 @@ def parseOp (s : String) : Option Op :=
   | ["ecmd", u, t] => do some (.ecmd (← parseUid u) t.toList)
   | ["gc"] => some .gc
   | ["it"] => some .it
+  | ["itn"] => some .it      -- input_to with I_NOECHO: the echo flag does not touch scheduling
   | _ => none
 
 structure Parsed where
